@@ -71,3 +71,18 @@ claim("C06", ENGINE_A,
       "schema text is used as a format string. The bound is the tree shape of the family, not the values. Three known findings (byte length twice, discarded regexp error). Regexp dialect differences are not decided.",
       "summaries of fmt/strings/sort/unicode/litter/wordwrap listed in the evidence; Identifierize replaced by its specification for symbolic names (decided separately under C14); distinct atoms denote distinct strings",
       "DESIGN.md §1.1, §2 C06")
+
+claim("C19", ENGINE_A + "; A-AON / A-NILG AST rules on every emitted Unmarshal method",
+      "Decides on every Unmarshal method the generator emits for the broad union of schema families (strings, numerics, arrays to depth 3, null types, all type/format mappings, required "
+      "subsets, defaults, enums, additionalProperties of every kind, anyOf with 1..4 branches and map-only branches; ~620 members quick) that the receiver is written exactly once, by a final "
+      "`*j = T(local)` followed by `return nil`, with every earlier return inside an error branch (all-or-nothing), and that every dereference/index of the decoded value is dominated by its nil "
+      "test / range loop and no constant-zero divisor is emitted (no panic in the emitted code itself). All names and limits are symbolic. Panics inside encoding/json, yaml, mapstructure and "
+      "regexp are not decided.",
+      "summaries listed in the evidence; mergo.Merge and cmp.Equal are modelled (stated in assumptions)",
+      "DESIGN.md §2 C19")
+claim("C17", ENGINE_A + "; A-SIB comparison of the two emitted methods",
+      "Decides, for every type emitted for the same broad union of families under --extra-imports, that UnmarshalJSON and UnmarshalYAML (validating and enum variants) are the same statement "
+      "list up to the decode call and the anyOf branch call, and that no type has only one of them. Because the interpreter runs both emitters on the same validator objects, state leaking "
+      "from the first pass into the second is visible. Equal skeletons imply equal rule sets and equal default handling; scalar-typing differences of the decoders themselves are not decided.",
+      "same as C19",
+      "DESIGN.md §2 C17")
